@@ -81,6 +81,38 @@ func DiscoverCtxOps(p *Prog, T *Terms, pkg string) []*CtxOp {
 					continue
 				}
 				op.Closure = mc.Fn.(*ssa.Function)
+				// the blocking I/O may sit in a helper of the package called by the closure
+				for _, cb := range op.Closure.Blocks {
+					for _, ci := range cb.Instrs {
+						c, ok := ci.(*ssa.Call)
+						if !ok {
+							continue
+						}
+						t := c.Call.StaticCallee()
+						if t == nil || !p.InRepo(t) || t.Blocks == nil {
+							continue
+						}
+						for _, hb := range t.Blocks {
+							for _, hi := range hb.Instrs {
+								hc, ok := hi.(ssa.CallInstruction)
+								if !ok {
+									continue
+								}
+								if sc := hc.Common().StaticCallee(); sc != nil && sc.Signature.Recv() != nil && isNamed(sc.Signature.Recv().Type(), "bufio", "Reader") && bufioConsumers[sc.Name()] {
+									op.IOCall, op.IODir = c, "read"
+								}
+								if hc.Common().IsInvoke() && isNamed(hc.Common().Value.Type(), "net", "Conn") {
+									switch hc.Common().Method.Name() {
+									case "Read":
+										op.IOCall, op.IODir = c, "read"
+									case "Write":
+										op.IOCall, op.IODir = c, "write"
+									}
+								}
+							}
+						}
+					}
+				}
 				// the closure's sends
 				for _, cb := range op.Closure.Blocks {
 					for _, ci := range cb.Instrs {
